@@ -104,5 +104,5 @@ MANIFEST = {
             "proved for one CA level only and checked dynamically beyond. Recorded findings F-C01-1 (overclaiming ROA after key-roll "
             "activation, open), F-C01-2 (certificate without resources, open); the relying-party consequences of F-C03-1 and "
             "F-C02-1 are fixed in /repo (43d7eca0, bb96d233).",
-    "technique": "Lean 4 proof (invariants, iff-characterisations) + correspondence check (system stream) + relying-party oracle",
+    "technique": "Lean 4 proof (invariants, iff-characterisations, induction over the CA hierarchy) + correspondence check (system stream) + the Lean relying-party model executed on the real repository content and compared with an rpki-rs walk + source translator (body of Roas::mode)",
 }
